@@ -39,6 +39,7 @@ type env struct {
 	signer string
 	nonce  int
 	slept  map[string]int
+	dir    string
 }
 
 func (e *env) cache(backend string) *ck.RecCache {
@@ -229,6 +230,13 @@ func firstSetTTL(rec *caseRec) string {
 
 // runPhases executes r1, r2 and (where the cache clock can be advanced) r3 after the advance.
 func (e *env) runPhases(rec *caseRec, c *ck.RecCache, advance time.Duration, run func(c *ck.RecCache) ck.Outcome) {
+	e.runPhasesLazy(rec, c, func() time.Duration { return advance }, e.maySleep, run)
+}
+
+// runPhasesLazy is runPhases with an advance which is only known after r1 and r2 (e.g. taken from the expiry of a token
+// handed out), and with the rationing of real sleeps given by the caller.
+func (e *env) runPhasesLazy(rec *caseRec, c *ck.RecCache, advanceOf func() time.Duration, maySleep func(*caseRec, time.Duration) bool,
+	run func(c *ck.RecCache) ck.Outcome) {
 	phase := func(name string) {
 		c.SetPhase(name)
 		n0, s0 := c.Len(), e.srv.All()
@@ -244,7 +252,8 @@ func (e *env) runPhases(rec *caseRec, c *ck.RecCache, advance time.Duration, run
 	}
 	phase("r1")
 	phase("r2")
-	if advance > 0 && (c.Virtual() || e.maySleep(rec, advance)) {
+	advance := advanceOf()
+	if advance > 0 && (c.Virtual() || maySleep(rec, advance)) {
 		rec.Advance = advance.String()
 		c.Advance(advance)
 		phase("r3")
@@ -316,7 +325,12 @@ func TestC10(t *testing.T) {
 		"TTL variants: every cacheable mechanism is used by three variants of one catalogue entry (prototype / rule level override resp. two overrides) with TTL 1h, a short TTL and 0 for the " +
 		"same subject / credential, long first and short first, the clock moving past the short TTL in between (virtual on miniredis, one common real pause of 2.3s on the in-memory cache): " +
 		"no variant is answered with an entry older than its own TTL, whoever stored it. HTTP responses also carry a Date ahead of / behind the cache's clock (alone and with Age), " +
-		"Cache-Control spread over several header lines (judged as the joined list) and Age / expires_in values beyond the range of time.Duration; JWKs with an x5c chain whose intermediate expires first.")
+		"Cache-Control spread over several header lines (judged as the joined list) and Age / expires_in values beyond the range of time.Duration; JWKs with an x5c chain whose intermediate expires first. " +
+		"Back ends: a few dozen entries with ttls of 1s..2s stored in the real in-memory cache (real time) and through the real redis client (miniredis, virtual time; the lifetime the server " +
+		"reports for the key is read as well): served directly after the Set, not served by a lookup which begins after Set-returned + ttl + 2%. " +
+		"jwt finalizer with signer key stores whose certificate expires 3s/8s/20s/90s after the key store was loaded: the validity of a token is the exp it states itself (the clock is moved past that one; " +
+		"a token taken from the cache must not be expired). Remaining lifetimes exactly at and 1s next to the 10s leeway of the authenticators (token / session expiry, JWK certificate), " +
+		"prepared for and executed at the begin of a full second (a case counts when its first execution lay within that second, up to 4 attempts); expires_in at and next to the 5s of client credentials.")
 	r.Assume("redis semantics are those of miniredis with heimdall's real rueidis based client (client side caching disabled as in the repository's tests)",
 		"virtual time only moves the cache clock: heimdall itself reads the wall clock, so after an advance only the hit/miss of the next lookup is judged",
 		"the age of a response is taken from its Age header only: that a Date lying in the past does not count against max-age / Expires-minus-Date is not judged (counted as an observation); a Date lying in the future must never extend the lifetime")
@@ -325,7 +339,7 @@ func TestC10(t *testing.T) {
 	if dir == "" {
 		dir = t.TempDir()
 	}
-	e := &env{r: r, srv: ck.NewServers()}
+	e := &env{r: r, srv: ck.NewServers(), dir: dir}
 	defer e.srv.Close()
 	var err error
 	if e.pki, err = ck.NewPKI(dir); err != nil {
@@ -348,14 +362,18 @@ func TestC10(t *testing.T) {
 	}
 	defer e.a.Stop()
 
+	waitBackends := e.backendProbes()
 	e.introspection()
 	e.generic()
 	e.jwtAuthenticator()
+	e.leewayBoundaries()
 	e.jwtFinalizer()
+	e.jwtFinalizerShortLivedSigner()
 	e.clientCredentials()
 	e.remoteAndContextualizer()
 	e.ttlVariants()
 	e.httpCache()
+	waitBackends()
 
 	obs := map[string]int64{}
 	for _, k := range []string{"cache_sets", "cache_hits", "nontrivial"} {
